@@ -53,6 +53,10 @@ type ProxyOpts struct {
 	// Matcher, when set, is the credentials matcher OBJECT handed to NewHTTPProxy (instead of one built from
 	// Credentials): lets a scenario give several instances the same matcher.
 	Matcher *forwarder.CredentialsMatcher
+	// Host, when set, decides HOW the proxy's Run is hosted: StartProxy runs Host(hp.Run)(ctx) instead of hp.Run(ctx) —
+	// e.g. inside a runctx.Group next to other members, the way command/run composes the process (c11/group.go). Done()
+	// then yields what the host returned; Cancel cancels the context the host was given.
+	Host func(run func(context.Context) error) func(context.Context) error
 }
 
 // ErrNoListenerTap: the proxy's listener slice could not be reached (field renamed or retyped).
@@ -180,7 +184,11 @@ func StartProxy(o ProxyOpts) (*Proxy, error) {
 	}
 	ctx, cancel := context.WithCancel(context.Background())
 	p := &Proxy{HP: hp, Addr: addrs[0], Addrs: addrs, cancel: cancel, done: make(chan error, 1), RT: rt}
-	go func() { p.done <- hp.Run(ctx) }()
+	run := hp.Run
+	if o.Host != nil {
+		run = o.Host(hp.Run)
+	}
+	go func() { p.done <- run(ctx) }()
 	return p, nil
 }
 
